@@ -8,52 +8,7 @@
 //@   rule R0
 //@ end
 
-// ---------- the oracle: the abstract data tree a document denotes (what an independent decoder reads) ----------
-// Integers are MATHEMATICAL integers (a decoder such as python's json reads 18446744073709551615 as that
-// integer); lists keep order and length; an object is the sequence of its (key, value) members in the order
-// the format value presents them.  `NotData` is the image of the two Val variants no document denotes.
-pub enum D {
-    Null,
-    Bool(bool),
-    Int(int),
-    Float(f64),
-    Str(Seq<char>),
-    List(Seq<D>),
-    Obj(Seq<(Seq<char>, D)>),
-    NotData,
-}
-
-// data(val): the data tree a ucg value denotes. Whole-view: nothing of the value is left out, so
-// `data(r) == view(input)` pins every node of the result.
-pub open spec fn data(v: Val) -> D
-    decreases v
-{
-    match v {
-        Val::Empty => D::Null,
-        Val::Boolean(b) => D::Bool(b),
-        Val::Int(i) => D::Int(i as int),
-        Val::Float(f) => D::Float(f),
-        Val::Str(s) => D::Str(s@),
-        Val::List(l) => D::List(Seq::new(l@.len(), |k: int| if 0 <= k < l@.len() { data(*l@[k]) } else { D::NotData })),
-        Val::Tuple(fs) => D::Obj(Seq::new(fs@.len(), |k: int| if 0 <= k < fs@.len() { (fs@[k].0@, data(*fs@[k].1)) } else { (Seq::<char>::empty(), D::NotData) })),
-        Val::Env(_) => D::NotData,
-        Val::Constraint(_) => D::NotData,
-    }
-}
-
-// ucg's Int is an i64: a tree can be bound to a ucg value iff every integer in it fits.
-pub open spec fn fits_i64(x: int) -> bool { i64::MIN <= x <= i64::MAX }
-pub open spec fn representable(d: D) -> bool
-    decreases d
-{
-    match d {
-        D::Int(x) => fits_i64(x),
-        D::List(l) => forall|k: int| 0 <= k < l.len() ==> representable(#[trigger] l[k]),
-        D::Obj(m) => forall|k: int| 0 <= k < m.len() ==> representable((#[trigger] m[k]).1),
-        D::NotData => false,
-        _ => true,
-    }
-}
+//@ include prelude/unmap_json_tree.rs
 
 // the contract of every mapper: a representable tree is bound to a value denoting EXACTLY that tree;
 // a tree that cannot be represented (an integer outside i64) is a build error, never an altered value.
@@ -70,6 +25,12 @@ pub assume_specification [<Rc<str> as From<String>>::from] (s: String) -> (r: Rc
 // `Box<dyn Error>` is only constructed and propagated by `?` (R5): opaque.
 #[verifier::external_body]
 pub struct VBoxDynError { _p: u8 }
+
+// `ImportResult` (convert/traits.rs), with the opaque boxed error.
+//@ extract src/convert/traits.rs :: type ImportResult
+//@   subst "result::Result" => "Result"
+//@   subst "Box<dyn Error>>" => "VBoxDynError>"
+//@ end
 
 // crate::error::{ErrorType, BuildError}: `BuildError::new(msg, t).to_boxed()` builds the boxed error; the
 // unsizing coercion Box<BuildError> -> Box<dyn Error> at the `Err(..)` site is folded into `to_boxed`.
